@@ -52,8 +52,8 @@ def fields_decl(kind, kinds):
 
 
 def build(name, shape, kinds, entry, variant_kind="named", type_value=None, nvariants=3, defidx=1, list_args="Default"):
-    desc = "shape=%s kinds=%s entry=%s type_value=%s list=%s" % (shape, ",".join(kinds), entry, type_value, list_args)
-    sig = "%s|%s|%s|%s|%s" % (shape, ",".join(kinds), entry, type_value, list_args)
+    desc = "shape=%s/%s kinds=%s entry=%s type_value=%s list=%s" % (shape, variant_kind, ",".join(kinds), entry, type_value, list_args)
+    sig = "%s/%s|%s|%s|%s|%s" % (shape, variant_kind, ",".join(kinds), entry, type_value, list_args)
     src = e1.HEADER.format(pid=PID, name=name, desc=desc)
     pre = "#[derive_ex(%s)]\n" % list_args if entry == "attr" else "#[derive(Ex)]\n#[derive_ex(%s)]\n" % list_args
     tv_attr, tv_ref = "", None
@@ -141,6 +141,10 @@ def run(tier):
             add("enum", [k], "attr", "tuple", nvariants=2, defidx=0)
             add("enum-single", [k, "call"], "attr", "named", nvariants=1, defidx=0)
     add("struct", [], "attr", "unit")
+    add("struct", [], "attr", "named")  # struct T {}
+    add("struct", [], "attr", "tuple")  # struct T();
+    add("enum", [], "attr", "named", nvariants=2, defidx=1)  # #[default] V1 {}
+    add("enum-single", [], "attr", "tuple", nvariants=1, defidx=0)  # Only()
     add("enum", [], "attr", "unit", nvariants=3, defidx=2)
     add("enum", [], "derive", "unit", nvariants=2, defidx=0)
     add("enum-single", ["call", "path-const-into"], "attr", "named", nvariants=1, defidx=0)
